@@ -2173,7 +2173,59 @@ class Interp:
                     out.extend(self.ex_Call(target, [s], fr, raised))
             if out:
                 return out + (self.ex_Call_plain(expr, plain, fr, raised) if plain else [])
+        if isinstance(func, ast.Attribute) and isinstance(func.value, ast.Name) and \
+                func.value.id == 'self' and len(expr.args) == 1 and not expr.keywords:
+            target = self._class_accessor_target(expr, fr)
+            if target is not None:
+                return self.ev(target, sts, fr, raised)
         return self.ex_Call_plain(expr, sts, fr, raised)
+
+    def _class_accessor_target(self, expr, fr: DynFrame):
+        """``self.acc(obj)`` where the class of the receiver binds ``acc`` to an accessor of
+        the operator module (``methodcaller('m', ...)``, ``attrgetter('a')``,
+        ``itemgetter(i)``, possibly wrapped in ``staticmethod``): the plain expression it
+        computes for ``obj``.  Decided per receiver class, so overrides in subclasses count."""
+        recv = fr.frame.recv
+        if recv is None or isinstance(expr.args[0], ast.Starred) or \
+                self.p.find_method(recv, expr.func.attr) is not None:
+            return None
+        found = self.p.find_class_attr(recv, expr.func.attr)
+        value = found[1] if found else None
+        owner = self.p.classes.get(found[0]) if found else None
+        if isinstance(value, ast.Call) and isinstance(value.func, ast.Name) and \
+                value.func.id == 'staticmethod' and len(value.args) == 1:
+            value = value.args[0]
+        if not (isinstance(value, ast.Call) and owner is not None and value.args and all(
+                isinstance(a, ast.Constant) for a in value.args) and all(
+                kw.arg is not None and isinstance(kw.value, ast.Constant)
+                for kw in value.keywords)):
+            return None
+        binding = self.p.resolve_dotted(owner.module, value.func)
+        kind = binding[1] if binding and binding[0] == 'ext' else None
+        key = (id(expr), id(value))
+        cached = self._PARTIALS.get(key)
+        if cached is not None and cached[1] is expr and cached[2] is value:
+            return cached[0]
+        subject = expr.args[0]
+        first = value.args[0].value
+        if kind == 'operator.methodcaller' and isinstance(first, str) and first.isidentifier():
+            new = ast.Call(func=ast.Attribute(value=subject, attr=first, ctx=ast.Load()),
+                           args=list(value.args[1:]), keywords=list(value.keywords))
+        elif kind == 'operator.attrgetter' and len(value.args) == 1 and \
+                isinstance(first, str) and all(p.isidentifier() for p in first.split('.')):
+            new = subject
+            for part in first.split('.'):
+                new = ast.Attribute(value=new, attr=part, ctx=ast.Load())
+        elif kind == 'operator.itemgetter' and len(value.args) == 1:
+            new = ast.Subscript(value=subject, slice=value.args[0], ctx=ast.Load())
+        else:
+            return None
+        for fresh in ast.walk(new):
+            if isinstance(fresh, ast.expr) and not hasattr(fresh, 'lineno'):
+                ast.copy_location(fresh, expr)
+        new.origin_node = expr
+        self._PARTIALS[key] = (new, expr, value)
+        return new
 
     _PARTIALS = {}
 
